@@ -3103,6 +3103,12 @@ func (p *Posix) DeleteObject(ctx context.Context, input *s3.DeleteObjectInput) (
 					return nil, fmt.Errorf("set versionId: %w", err)
 				}
 			} else {
+				// versioning is suspended: the delete marker becomes the null
+				// version, which replaces a null version archived earlier
+				err = p.deleteNullVersionIdObject(bucket, object)
+				if err != nil {
+					return nil, fmt.Errorf("delete null version: %w", err)
+				}
 				err = p.meta.DeleteAttribute(bucket, object, versionIdKey)
 				if err != nil && !errors.Is(err, meta.ErrNoSuchKey) {
 					return nil, fmt.Errorf("delete versionId: %w", err)
